@@ -502,6 +502,32 @@ func main() {
 			R.Run("NewPublicKeyFromPoint", "frompoint", mc.D{"q": lib.PtHex(p.P), "z": fmt.Sprintf("%x", z.V)})
 		}
 	}
+	// the coordinate route to a key object: NewPointFromCoords with a non-canonical coordinate (x+p or y+p still fits
+	// 32 bytes for the alphabet's points with a tiny coordinate) must fail, so no key can come from it
+	for _, p := range mc.PointAlphabet(3, R.Seed, 2) {
+		if p.P.Inf {
+			continue
+		}
+		for ci, c := range []*big.Int{p.P.X, p.P.Y} {
+			alias := new(big.Int).Add(c, ref.P)
+			if alias.BitLen() > 256 {
+				continue
+			}
+			xb, yb := ref.A32(p.P.X), ref.A32(p.P.Y)
+			if ci == 0 {
+				xb = ref.A32(alias)
+			} else {
+				yb = ref.A32(alias)
+			}
+			R.T(1)
+			R.Class("coordinate route/non-canonical coordinate", 1)
+			pt, err := secp256k1.NewPointFromCoords(xb, yb)
+			if err == nil || pt != nil {
+				k, kerr := secec.NewPublicKeyFromPoint(pt)
+				R.Fail("NewPointFromCoords -> key object", "misc", map[string]any{"point": p.Label, "coordinate": []string{"x", "y"}[ci], "what": fmt.Sprintf("a coordinate string >= p (value + p) was accepted; NewPublicKeyFromPoint then gives key=%v err=%v", k != nil, kerr)}, nil)
+			}
+		}
+	}
 	// RecoverPublicKey as a route to a key object: recovered point t*G for t = 0 (identity: refused) and small / boundary t
 	for _, e := range []*big.Int{big.NewInt(0), big.NewInt(1), ref.ModN(ref.OS2IP(ref.TaggedHash("verif/C10", []byte("e")))), new(big.Int).Sub(ref.N, big.NewInt(1))} {
 		for _, k := range []int64{1, 2, 3, 7} {
